@@ -72,8 +72,6 @@ impl PolicyFilter {
                 assert(self.rules@.skip(k)[0] == self.rules@[k]);
                 assert(self.rules@.skip(k).skip(1) =~= self.rules@.skip(k + 1));
             }
-//@proof before /^\s*FilterResult::Error\s*$/
-        proof { assert(self.rules@.skip(self.rules@.len() as int).len() == 0); }
 //@end
 
 //@fn vls-core/src/policy/filter.rs :: impl PolicyFilter :: merge props=C05
